@@ -5,10 +5,13 @@ import (
 	"errors"
 	"fmt"
 	"os"
+	"os/exec"
 	"path/filepath"
 	"runtime"
+	"sort"
 	"strings"
 	"syscall"
+	"testing"
 
 	"github.com/anishathalye/porcupine"
 
@@ -61,7 +64,11 @@ func c15Progs() []c15Prog {
 }
 
 func runC15(x *mc.X) {
-	mode := mc.Pick(x, "mode", []string{"interleave", "cut", "transport-cut"})
+	mode := mc.Pick(x, "mode", []string{"interleave", "cut", "transport-cut", "cut-conformance"})
+	if mode == "cut-conformance" {
+		runC15Conformance(x)
+		return
+	}
 	if mode == "cut" {
 		runC15Cut(x)
 		return
@@ -511,4 +518,154 @@ func runC15TransportCut(x *mc.X) {
 		x.Failf(fmt.Sprintf("transport served a truncated or spliced body after a cut write (%s at %s)", how, ops[oi].Op),
 			"body of %d bytes %q (read error %v) is neither the old stored body (%d B), the new one (%d B) nor the origin's", len(o.Body), clipB(o.Body), o.BodyErr, len(bodyOld), len(bodyNew))
 	}
+}
+
+// ---- conformance of the in-process cut model with real process death
+//
+// The same lone Set is cut at the same file-system operation (and byte count) twice: in-process (the writing
+// goroutine is ended with Goexit) and in a real child process that SIGKILLs itself at that point. The two
+// directories must be identical (names of temporary files canonicalised), i.e. the simulated death leaves
+// exactly what the kernel leaves behind.
+
+func c15TreeDump(dir string) string {
+	var sb strings.Builder
+	files := c17Files(dir)
+	var names []string
+	for p := range files {
+		names = append(names, p)
+	}
+	sort.Strings(names)
+	for _, p := range names {
+		rel, _ := filepath.Rel(dir, p)
+		base := filepath.Base(rel)
+		if strings.HasPrefix(base, ".") || strings.Contains(base, "tmp") {
+			rel = filepath.Join(filepath.Dir(rel), "<temporary>")
+		}
+		fmt.Fprintf(&sb, "%s %d %x\n", rel, len(files[p]), hashBytes(files[p]))
+	}
+	return sb.String()
+}
+
+// c15CutSet performs Set(c15K, val) on dir, cut at operation index oi after short bytes; die is called at the cut.
+func c15CutSet(dir string, val []byte, oi, short int, markDying func()) {
+	conn, err := fscache.Open("app", fscache.WithBaseDir(dir))
+	if err != nil {
+		panic(err)
+	}
+	n := 0
+	shimos.Hook = func(ev *shimos.Event) shimos.Action {
+		i := n
+		n++
+		if i != oi {
+			return shimos.Action{}
+		}
+		if markDying != nil {
+			markDying()
+		}
+		return shimos.Action{Die: true, Short: short}
+	}
+	_ = conn.Set(c15K, val)
+	shimos.Hook = nil
+}
+
+func runC15Conformance(x *mc.X) {
+	vlen := mc.Pick(x, "value-len", []int{1, 40, 4097})
+	prev := x.Choose("previous-value", 2) == 1
+	val := bytes.Repeat([]byte("N"), vlen)
+	old := bytes.Repeat([]byte("o"), 50)
+	mk := func() string {
+		d, err := os.MkdirTemp(os.Getenv("VERIF_SCRATCH"), "c15c-")
+		if err != nil {
+			panic(err)
+		}
+		if prev {
+			shimos.Hook = nil
+			c, _ := fscache.Open("app", fscache.WithBaseDir(d))
+			_ = c.Set(c15K, old)
+		}
+		return d
+	}
+	// learn the operations of one Set
+	var evs []shimos.Event
+	dry := mk()
+	shimos.Hook = func(ev *shimos.Event) shimos.Action { evs = append(evs, *ev); return shimos.Action{} }
+	dc, _ := fscache.Open("app", fscache.WithBaseDir(dry))
+	evs = nil
+	_ = dc.Set(c15K, val)
+	shimos.Hook = nil
+	os.RemoveAll(dry)
+	if len(evs) == 0 {
+		x.Failf("harness: no file-system operation observed during Set", "")
+		return
+	}
+	oi := x.Choose("at-operation", len(evs))
+	x.Trace[len(x.Trace)-1].Desc = evs[oi].Op
+	short := 0
+	if evs[oi].Op == "File.Write" && evs[oi].N > 0 {
+		ks := []int{0, 1, evs[oi].N / 2, evs[oi].N - 1, evs[oi].N}
+		if evs[oi].N <= 64 || x.Tier() == "thorough" {
+			ks = nil
+			for k := 0; k <= evs[oi].N; k += max(1, evs[oi].N/64) {
+				ks = append(ks, k)
+			}
+		}
+		seen := map[int]bool{}
+		var uniq []int
+		for _, k := range ks {
+			if k >= 0 && k <= evs[oi].N && !seen[k] {
+				seen[k] = true
+				uniq = append(uniq, k)
+			}
+		}
+		short = mc.Pick(x, "bytes-written-before-the-cut", uniq)
+	}
+	// in-process
+	a := mk()
+	defer os.RemoveAll(a)
+	s := sched.New(x, 0)
+	c15CutSet(a, val, oi, short, s.MarkDying)
+	// real child process
+	b := mk()
+	defer os.RemoveAll(b)
+	cmd := exec.Command(os.Args[0], "-test.run", "^TestC15Child$", "-test.count", "1")
+	cmd.Env = append(os.Environ(), fmt.Sprintf("VERIF_C15_CHILD=%s|%d|%d|%d", b, vlen, oi, short))
+	out, err := cmd.CombinedOutput()
+	killed := false
+	if ee, ok := err.(*exec.ExitError); ok {
+		if ws, ok := ee.Sys().(syscall.WaitStatus); ok && ws.Signaled() && ws.Signal() == syscall.SIGKILL {
+			killed = true
+		}
+	}
+	if !killed {
+		x.Failf("harness: the child process did not die at the cut point", "err=%v output=%s", err, clipStr(string(out), 500))
+		return
+	}
+	da, db := c15TreeDump(a), c15TreeDump(b)
+	x.Transitions(2 * (oi + 1))
+	cls := fmt.Sprintf("conformance/%s/len=%d/prev=%v", evs[oi].Op, vlen, prev)
+	x.Nontrivial(cls)
+	x.State(cls, fmt.Sprint(short), da)
+	x.Note("simulated death == real SIGKILL: " + fmt.Sprint(da == db))
+	x.Sample(map[string]any{"cut_at": evs[oi].Op, "bytes_written": short, "value_len": vlen, "previous_value": prev, "directory_after_simulated_death": da, "directory_after_real_SIGKILL": db})
+	if da != db {
+		x.Failf("harness: simulated death differs from a real SIGKILL", "cut at %s after %d bytes:\n in-process:\n%s child process:\n%s", evs[oi].Op, short, da, db)
+	}
+}
+
+// TestC15Child is the body of the child process: it performs the Set and kills itself at the cut point.
+func TestC15Child(t *testing.T) {
+	spec := os.Getenv("VERIF_C15_CHILD")
+	if spec == "" {
+		t.Skip("not a child")
+	}
+	var dir string
+	var vlen, oi, short int
+	parts := strings.Split(spec, "|")
+	dir = parts[0]
+	fmt.Sscan(parts[1], &vlen)
+	fmt.Sscan(parts[2], &oi)
+	fmt.Sscan(parts[3], &short)
+	shimos.DieFunc = func() { _ = syscall.Kill(os.Getpid(), syscall.SIGKILL); select {} }
+	c15CutSet(dir, bytes.Repeat([]byte("N"), vlen), oi, short, nil)
+	t.Fatal("the child survived the cut point")
 }
